@@ -74,7 +74,7 @@ int main(void)
     while ((line = hx_getline())) {
         if (!strncmp(line, "seq ", 4)) {
             char *p = line + 4;
-            alarm(40);   /* a probe loop over a full table does not end: die and let the driver report the sequence */ while (*p && *p != ' ' && *p != '\n') ++p;   /* skip the hash mode */
+            alarm(8);    /* a probe loop over a full table does not end: die and let the driver report the sequence */ while (*p && *p != ' ' && *p != '\n') ++p;   /* skip the hash mode */
             run_seq(p);
             alarm(0);
         } else if (!strncmp(line, "hash ", 5)) {
